@@ -19,8 +19,8 @@ func fl(c []int64) []float64 {
 	return out
 }
 
-func v3(c []int64) r3.Vec { return r3.Vec{X: float64(c[0]), Y: float64(c[1]), Z: float64(c[2])} }
-func v2(c []int64) r2.Vec { return r2.Vec{X: float64(c[0]), Y: float64(c[1])} }
+func v3(c []int64) r3.Vec   { return r3.Vec{X: float64(c[0]), Y: float64(c[1]), Z: float64(c[2])} }
+func v2(c []int64) r2.Vec   { return r2.Vec{X: float64(c[0]), Y: float64(c[1])} }
 func a3(v r3.Vec) []float64 { return []float64{v.X, v.Y, v.Z} }
 func a2(v r2.Vec) []float64 { return []float64{v.X, v.Y} }
 
